@@ -128,7 +128,9 @@ POOL = [1, 0, -3, 2 ** 40, 255, 1.5, 2.0, -0.0, float("nan"), None, "7", "x", "2
 
 # values that are equal and hash alike across types (1 == 1.0 == True) next to a value no numeric / temporal type
 # accepts: the element-wise probe must judge each element on its own
-DIRECTED = [[1, "x", True], [True, "x", 1], [0, "x", False, 0.0], [1.0, "x", 1, True], [1, None, "x", 7]]
+DIRECTED = [[1, "x", True], [True, "x", 1], [0, "x", False, 0.0], [1.0, "x", 1, True], [1, None, "x", 7],
+            # the inputs of the recorded regions (so that every listed finding is demonstrated on every run)
+            ["1 days", 1.5], ["x"], [float("nan")], [None]]
 
 
 def pandas_dtypes():
